@@ -80,6 +80,45 @@ var consumers = []consumer{
 	{"Marshal(value whose MarshalJSON returns s)",
 		func(d []byte) error { _, err := stdjson.Marshal(wrapRaw{string(d)}); return err },
 		func(d []byte) error { _, err := segjson.Marshal(wrapRaw{string(d)}); return err }},
+	{`Marshal(map[string]RawMessage{"a":s,"b":1,"c":s}) (not the last key)`,
+		func(d []byte) error {
+			_, err := stdjson.Marshal(map[string]stdjson.RawMessage{"a": d, "b": stdjson.RawMessage("1"), "c": d})
+			return err
+		},
+		func(d []byte) error {
+			_, err := segjson.Marshal(map[string]segjson.RawMessage{"a": d, "b": segjson.RawMessage("1"), "c": d})
+			return err
+		}},
+	{`Marshal(map[string]RawMessage{"a":s,"z":1})`,
+		func(d []byte) error {
+			_, err := stdjson.Marshal(map[string]stdjson.RawMessage{"a": d, "z": stdjson.RawMessage("1")})
+			return err
+		},
+		func(d []byte) error {
+			_, err := segjson.Marshal(map[string]segjson.RawMessage{"a": d, "z": segjson.RawMessage("1")})
+			return err
+		}},
+	{`Marshal([]RawMessage{s,1}) / [2]RawMessage{1,s} / map[int]RawMessage{1:s,2:1}`,
+		func(d []byte) error {
+			if _, err := stdjson.Marshal([]stdjson.RawMessage{d, stdjson.RawMessage("1")}); err != nil {
+				return err
+			}
+			if _, err := stdjson.Marshal([2]stdjson.RawMessage{stdjson.RawMessage("1"), d}); err != nil {
+				return err
+			}
+			_, err := stdjson.Marshal(map[int]stdjson.RawMessage{1: d, 2: stdjson.RawMessage("1")})
+			return err
+		},
+		func(d []byte) error {
+			if _, err := segjson.Marshal([]segjson.RawMessage{d, segjson.RawMessage("1")}); err != nil {
+				return err
+			}
+			if _, err := segjson.Marshal([2]segjson.RawMessage{segjson.RawMessage("1"), d}); err != nil {
+				return err
+			}
+			_, err := segjson.Marshal(map[int]segjson.RawMessage{1: d, 2: segjson.RawMessage("1")})
+			return err
+		}},
 	{"Encoder(EscapeHTML off).Encode(RawMessage(s))",
 		func(d []byte) error {
 			e := stdjson.NewEncoder(io.Discard)
@@ -430,7 +469,9 @@ func TestNesting(t *testing.T) {
 			k := d / unit
 			closer := map[string]string{"[": "]", "{\"a\":": "}", "[{\"a\":": "}]"}[shape]
 			doc := []byte(strings.Repeat(shape, k) + "0" + strings.Repeat(closer, k))
-			r.do(Case{Doc: doc, What: "valid"}, false)
+			// every consumer, not only Valid: each decoder (generic, map[string]any, map[string]RawMessage,
+			// skipped fields, the Tokenizer's users) counts the levels on its own
+			r.do(Case{Doc: doc, What: "all"}, false)
 			evid.Label(fmt.Sprintf("nesting.depth%d", d))
 		}
 	}
